@@ -160,6 +160,40 @@ class RecordLoop:
                 self.paths.append(dict(conds=conds, assign=a, effects=effs, exit=k, state=st))
         self.sroa = None
         self._sroa_detect()
+        self._unwrap_member_maps()
+
+    # ---- a per-class member map wrapped in a private struct together with its de-dup set (`members_by_params.groups` / `.seen`) ------
+    def _unwrap_member_maps(self):
+        """`current.members_by_params.groups.entry(..)`: the map is one field of a private two-field wrapper. The wrapper field
+        that holds the map is dropped from every place and term, so the map is `current.members_by_params` again; the other
+        field (the set) keeps its longer path."""
+        wrap = {}
+        for p_ in self.paths:
+            for e in p_["effects"]:
+                if e[0] == "push" and e[1][0] == "slot":
+                    pl = e[1][1]
+                    while pl[0] == "slot":
+                        pl = pl[1]
+                    if pl[0] == "place" and len(pl[2]) >= 2 and pl[2][-2] in ("members", "members_by_params"):
+                        wrap.setdefault(pl[2][-2], set()).add(pl[2][-1])
+        self.unwrapped = {m: list(g)[0] for m, g in wrap.items() if len(g) == 1}
+        if not self.unwrapped:
+            return
+
+        def rw(t):
+            if t[0] == "place" and len(t[2]) >= 2:
+                path = list(t[2])
+                for i in range(len(path) - 1):
+                    if path[i] in self.unwrapped and path[i + 1] == self.unwrapped[path[i]]:
+                        return ("place", t[1], tuple(path[:i + 1] + path[i + 2:]))
+            if t[0] == "field" and t[1][0] == "field" and t[1][2] in self.unwrapped and t[2] == self.unwrapped[t[1][2]]:
+                return t[1]
+            return None
+        self._unwrap_rw = rw
+        for p_ in self.paths:
+            p_["conds"] = tuple((fc.rewrite(a, rw), pol) for a, pol in p_["conds"])
+            p_["assign"] = fc.assignment(p_["conds"])
+            p_["effects"] = [fc.rewrite(e, rw) for e in p_["effects"]]
 
     # ---- loop state kept in one private struct (`current.mapping`, `current.unique_methods`): scalar replacement -------------
     def _sroa_detect(self):
